@@ -912,10 +912,12 @@ def gen_c10_program():
     out.append("fn main() {")
     for i, g in enumerate(G):
         for v in ("true", "false"):
-            out.append(f"    {{ let tp = g{i} as {g['ty']} as *const (); let before = bytes(tp); let mut during = None;"
-                       f" let r = catch_unwind(AssertUnwindSafe(|| {{ let mut inj = InjectorPP::new(); inj.when_called(injectorpp::func!(g{i}, {g['ty']})).will_return_boolean({v}); during = Some(bytes(tp)); }}));"
+            # the injector outlives the (possibly refused) call: the target is observed while it is still alive
+            out.append(f"    {{ let tp = g{i} as {g['ty']} as *const (); let before = bytes(tp); let mut inj = InjectorPP::new();"
+                       f" let r = catch_unwind(AssertUnwindSafe(|| {{ inj.when_called(injectorpp::func!(g{i}, {g['ty']})).will_return_boolean({v}); }}));"
+                       f" let during = bytes(tp); drop(inj);"
                        f" let msg = match &r {{ Ok(()) => \"ACCEPTED\".to_string(), Err(p) => {{ let m = p.downcast_ref::<String>().cloned().or_else(|| p.downcast_ref::<&str>().map(|s| s.to_string())).unwrap_or_default(); if m.to_lowercase().contains(\"signature\") {{ \"REFUSED\".to_string() }} else {{ format!(\"PANIC-OTHER\") }} }} }};"
-                       f" println!(\"G {i} {v} {{msg}} modified_during={{}} restored={{}}\", during.map(|d| (d != before) as u8).unwrap_or(9), (bytes(tp) == before) as u8); }}")
+                       f" println!(\"G {i} {v} {{msg}} modified_during={{}} restored={{}}\", (during != before) as u8, (bytes(tp) == before) as u8); }}")
     out.append("}")
     return "\n".join(out) + "\n", G
 
@@ -958,6 +960,10 @@ def c10_gate_profile(tier, mi, release):
         if p[3] != expect:
             kind = "non-bool-signature-accepted" if p[3] == "ACCEPTED" else ("bool-signature-refused" if expect == "ACCEPTED" else "wrong-refusal-message")
             viols.append({"key": f"gate:{kind}:{g['ty']}".replace(" ", ""), "what": f"will_return_boolean({p[2]}) on a function of type `{g['ty']}`: {p[3]}, expected {expect}", "engine": "e4", "args": ["c10"], "case": {"type": g["ty"], "line": l}})
+        elif p[3] == "REFUSED" and p[4] != "modified_during=0":
+            viols.append({"key": "gate:refused-but-installed", "what": f"will_return_boolean({p[2]}) on `{g['ty']}` was refused, yet the target's code is modified while the injector is alive", "engine": "e4", "args": ["c10"], "case": {"type": g["ty"], "line": l}})
+        elif p[3] == "ACCEPTED" and p[4] != "modified_during=1":
+            viols.append({"key": "gate:accepted-but-not-installed", "what": f"will_return_boolean({p[2]}) on `{g['ty']}` was accepted, yet the target's code is unchanged", "engine": "e4", "args": ["c10"], "case": {"type": g["ty"], "line": l}})
         elif p[3] == "REFUSED" and p[5] != "restored=1":
             viols.append({"key": "gate:refused-but-modified", "what": f"refusal for `{g['ty']}` left the target modified", "engine": "e4", "args": ["c10"], "case": {"type": g["ty"], "line": l}})
     if judged < 2 * len(G):
